@@ -168,6 +168,19 @@ pub fn c16(a: &Args) {
             if ans != tt.count_with(&lits).to_string() { out.fail("count-in-history", &file.text(), &format!("count {:?}", lits), &ans, &tt.count_with(&lits).to_string()); }
             let temps: Vec<String> = d.nodes.iter().map(|nd| nd.temp.to_string()).collect();
             out.query("ms", &fmt_ints(&lits), &format!("{} | {} | clean=true", ans, temps.join(",")));
+            // every third request: a sampling request in between (preprocess_config_creation + execute_query reset and
+            // recompute the temp fields); the temps it leaves behind are compared as well
+            if r2.chance(0.35) {
+                let alen = match r2.below(6) { 0 => 0, 1..=3 => 1 + r2.below(2), 4 => 3, _ => 21 };
+                let al: Vec<i32> = (0..alen).map(|_| { let v = 1 + r2.below(n as usize) as i32; if r2.chance(0.5) { v } else { -v } }).collect();
+                let res = guarded(|| d.uniform_random_sampling(&al, 2, 5));
+                let temps: Vec<String> = d.nodes.iter().map(|nd| nd.temp.to_string()).collect();
+                match res {
+                    Ok(_) => out.query("cfgprep", &fmt_ints(&al), &format!("{} | {}", tt.count_with(&al), temps.join(","))),
+                    Err(e) => out.fail("urs-panic-in-history", &file.text(), &format!("urs a {:?}", al), &format!("panic: {e}"), "samples"),
+                }
+                out.count("config_preparations", 1);
+            }
         }
     }
     // two different models enumerated alternately in one process
